@@ -1942,7 +1942,8 @@ class PGPKey(Armorable, ParentRef, PGPObject):
                 return {KeyFlags.Certify}
 
             else:
-                user = next(iter(self.userids))
+                # the first user id, or the first user attribute when there is no user id (any more)
+                user = next(iter(self.userids or self._uids))
 
             # RFC 4880 says that primary keys *must* be capable of certification
             return {KeyFlags.Certify} | (user.selfsig.key_flags if user.selfsig else set())
@@ -1964,9 +1965,10 @@ class PGPKey(Armorable, ParentRef, PGPObject):
             uid = self.get_uid(user)
 
         else:
-            uid = next(iter(self.userids), None)
+            # the first user id, or the first user attribute when there is no user id (any more)
+            uid = next(iter(self.userids or self._uids), None)
             if uid is None and self.parent is not None:
-                uid = next(iter(self.parent.userids), None)
+                uid = next(iter(self.parent.userids or self.parent._uids), None)
 
         if sig.hash_algorithm is None:
             sig._signature.halg = next((h for h in uid.selfsig.hashprefs if h.is_supported), HashAlgorithm.SHA256)
@@ -2567,9 +2569,10 @@ class PGPKey(Armorable, ParentRef, PGPObject):
         if user is not None:
             uid = self.get_uid(user)
         else:
-            uid = next(iter(self.userids), None)
+            # the first user id, or the first user attribute when there is no user id (any more)
+            uid = next(iter(self.userids or self._uids), None)
             if uid is None and self.parent is not None:
-                uid = next(iter(self.parent.userids), None)
+                uid = next(iter(self.parent.userids or self.parent._uids), None)
         pref_cipher = next((c for c in uid.selfsig.cipherprefs if c.is_supported), SymmetricKeyAlgorithm.TripleDES)
         cipher_algo = prefs.pop('cipher', pref_cipher)
 
